@@ -1259,6 +1259,10 @@ def geometry_classes(text):
                     cls.add('nonpositive-dimension')
                 if pitch is not None and max(ftf) >= pitch:
                     cls.add('duct-not-smaller-than-pitch')
+                # a duct wall of zero thickness (inner flat-to-flat = outer flat-to-flat of one duct)
+                sf = sorted(ftf)
+                if len(sf) % 2 == 0 and any(sf[i] == sf[i + 1] for i in range(0, len(sf), 2)):
+                    cls.add('nonpositive-dimension')
                 outer.append(round(max(ftf), 9))
                 if None not in (n, P, D, Dw) and n >= 1 and min(P, D) > 0 and Dw >= 0:
                     # round-off of the sum: a few ulp of the flat-to-flat
